@@ -1,7 +1,13 @@
 import Reclass.Props.C17
 open Reclass
-#print axioms Reclass.C17.accumulate_inv
+#print axioms Reclass.C17.inv_empty
+#print axioms Reclass.C17.handleNegation_inv
+#print axioms Reclass.C17.appendIfNew_inv
+#print axioms Reclass.C17.foldl_handleNegation_inv
+#print axioms Reclass.C17.foldl_appendIfNew_inv
+#print axioms Reclass.C17.ofList_inv
 #print axioms Reclass.C17.merge_inv
+#print axioms Reclass.C17.accumulate_inv
 #print axioms Reclass.C17.neg_present
 #print axioms Reclass.C17.neg_absent
 #print axioms Reclass.C17.add_pending
